@@ -54,21 +54,38 @@ def r_gram_only(c):
     m = int(c["m"])
     rng = np.random.default_rng(0)
     bad = []
-    scales = [1.0, 1.0, 1e-2, 1e-3, 3e-4, 1.5e-4, 9e-5, 6e-5, 3e-5, 1e-5, 1e-8, 1e3, 1e6]
-    for trial in range(len(scales) * 2):
-        n = m + 1
-        J = rng.normal(size=(m, n)) * scales[trial % len(scales)]
-        Q, _ = np.linalg.qr(rng.normal(size=(n, n)))
-        name = c["agg"]
-        params = dict(f=0 if m == 3 else 1, k=1) if name == "krum" else {}
-        vec = list(rng.uniform(0.2, 1.0, size=m)) if name in ("constant", "dualproj") else None
-        A = make_agg(name, m, params, vec)
-        torch.manual_seed(3)
-        o1 = A(t64(J)).numpy()
-        torch.manual_seed(3)
-        o2 = A(t64(J @ Q)).numpy()
-        if not close(o2, o1 @ Q, 1e-4 if name == "cagrad" else 1e-6):
-            bad.append(f"trial {trial}: A(JQ) != A(J)Q")
+    scales = [1.0, 1e-2, 1e-3, 3e-4, 1.5e-4, 9.9e-5, 9e-5, 8e-5, 7e-5, 6e-5, 3e-5, 1e-5, 1e-8, 1e3, 1e6]
+    name = c["agg"]
+    params = dict(f=0 if m == 3 else 1, k=1) if name == "krum" else {}
+    trial = 0
+    for sc in scales:
+        for dist in ("normal", "uniform", "conflict"):
+            for _ in range(3):
+                trial += 1
+                n = m + 1
+                if dist == "normal":
+                    J = rng.normal(size=(m, n)) * sc
+                elif dist == "uniform":
+                    J = rng.uniform(-1, 1, size=(m, n)) * sc
+                else:
+                    J = rng.uniform(-1, 1, size=(m, n)) * sc
+                    if m > 1:
+                        J[1] = -J[0] + 0.3 * J[1]
+                Q, _ = np.linalg.qr(rng.normal(size=(n, n)))
+                vec = list(rng.uniform(0.2, 1.0, size=m)) if name in ("constant", "dualproj") else None
+                A = make_agg(name, m, params, vec)
+                torch.manual_seed(3)
+                o1 = A(t64(J)).numpy()
+                torch.manual_seed(3)
+                o2 = A(t64(J @ Q)).numpy()
+                if not close(o2 / sc, (o1 @ Q) / sc, 1e-4 if name == "cagrad" else 1e-6):
+                    bad.append(f"trial {trial} (scale {sc}, {dist}): A(JQ) != A(J)Q : {(o2 / sc).tolist()} vs {((o1 @ Q) / sc).tolist()}")
+                if len(bad) >= 2:
+                    break
+            if len(bad) >= 2:
+                break
+        if len(bad) >= 2:
+            break
     return dict(reproduced=bool(bad), why=bad[:2], note=c.get("what"))
 
 
